@@ -16,7 +16,8 @@
 //   dp_ps, hadd_ps      -> the sums in the order the Intel SDM specifies
 // A lane that was never written in this execution (the padding lane of an aligned vec3) is UNDEF; it propagates through
 // lane-wise instructions and is an error only when it reaches an output, a horizontal sum or a decision.
-// Integer and double-precision intrinsics are declared so that GLM compiles, and abort the trace when executed.
+// Double-precision lanes (add/sub/mul/div/fma, permutes, blends) are traced the same way (`#define double vt::sf64`).
+// Integer intrinsics are declared so that GLM compiles, and abort the trace when executed.
 #pragma once
 #define _MMINTRIN_H_INCLUDED
 #define _XMMINTRIN_H_INCLUDED
@@ -229,6 +230,41 @@ inline __m128i _mm_xor_si128(__m128i a, __m128i b) { __m128i r; for (int i = 0; 
 // ---- float <-> int32 lanes (used by the SSE2 round)
 inline __m128i _mm_cvttps_epi32(__m128 a) { __m128i r; for (int i = 0; i < 4; ++i) { uint32_t x = VT_SH::asf(a.l[i]); r.l[i] = x == VT_SH::UNDEF ? x : vt::G().mk(vt::CAST, vt::I32, x, 0, 0, 0, vt::F32); } return r; }
 inline __m128 _mm_cvtepi32_ps(__m128i a) { __m128 r; for (int i = 0; i < 4; ++i) { uint32_t x = a.l[i]; if (!VT_SH::live(x)) { r.l[i] = VT_SH::UNDEF; continue; } if (VT_SH::kind(x) == VT_SH::LBITS) { r.l[i] = VT_SH::fcst((float)(int32_t)(uint32_t)VT_SH::node(x).bits); continue; } if (VT_SH::node(x).k != vt::I32) throw vt::Untraceable("simd: cvtepi32_ps of a lane that is not an int32"); r.l[i] = vt::G().mk(vt::CAST, vt::F32, x, 0, 0, 0, vt::I32); } return r; }
+// ---- double precision (lane i of a __m128d / __m256d is the 8-byte tracing double at l[2 i])
+typedef vt::sf64 vt_f64;
+namespace vt { namespace simd {
+inline uint32_t asd(uint32_t raw) { if (!live(raw)) return UNDEF; Node const& n = node(raw); if (n.k == F64 && !is_bool_op(n.op)) return raw; throw Untraceable("simd: arithmetic on a lane that is not a double"); }
+inline uint32_t d2(Op o, uint32_t a, uint32_t b) { a = asd(a); b = asd(b); return (a == UNDEF || b == UNDEF) ? UNDEF : G().mk(o, F64, a, b); }
+inline uint32_t d3(uint32_t a, uint32_t b, uint32_t c) { a = asd(a); b = asd(b); c = asd(c); return (a == UNDEF || b == UNDEF || c == UNDEF) ? UNDEF : G().mk(FMA, F64, a, b, c); }
+inline uint32_t dzero() { return G().mk(CST, F64, 0, 0, 0, 0); }
+}}
+inline __m128d _mm_setr_pd(vt_f64 e0, vt_f64 e1) { __m128d r; r.l[0] = e0.id; r.l[1] = 0; r.l[2] = e1.id; r.l[3] = 0; return r; }
+inline __m128d _mm_set_pd(vt_f64 e1, vt_f64 e0) { return _mm_setr_pd(e0, e1); }
+inline __m128d _mm_set1_pd(vt_f64 x) { return _mm_setr_pd(x, x); }
+inline __m128d _mm_setzero_pd() { __m128d r; r.l[0] = r.l[2] = VT_SH::dzero(); r.l[1] = r.l[3] = 0; return r; }
+inline __m128d _mm_loadu_pd(vt_f64 const* p) { return _mm_setr_pd(p[0], p[1]); }
+inline void _mm_storeu_pd(vt_f64* p, __m128d a) { p[0].id = a.l[0]; p[1].id = a.l[2]; }
+inline void _mm_store_sd(vt_f64* p, __m128d a) { p[0].id = a.l[0]; }
+inline __m128d _mm_shuffle_pd(__m128d a, __m128d b, int imm) { __m128d r; r.l[0] = a.l[2 * (imm & 1)]; r.l[2] = b.l[2 * ((imm >> 1) & 1)]; r.l[1] = r.l[3] = 0; return r; }
+#define VT_D2(NAME, OP) inline __m128d NAME(__m128d a, __m128d b) { __m128d r; for (int i = 0; i < 2; ++i) { r.l[2 * i] = VT_SH::d2(vt::OP, a.l[2 * i], b.l[2 * i]); r.l[2 * i + 1] = 0; } return r; }
+VT_D2(_mm_add_pd, ADD) VT_D2(_mm_sub_pd, SUB) VT_D2(_mm_mul_pd, MUL) VT_D2(_mm_div_pd, DIV)
+#undef VT_D2
+inline __m256d _mm256_setr_pd(vt_f64 e0, vt_f64 e1, vt_f64 e2, vt_f64 e3) { __m256d r; vt_f64 e[4] = { e0, e1, e2, e3 }; for (int i = 0; i < 4; ++i) { r.l[2 * i] = e[i].id; r.l[2 * i + 1] = 0; } return r; }
+inline __m256d _mm256_set_pd(vt_f64 e3, vt_f64 e2, vt_f64 e1, vt_f64 e0) { return _mm256_setr_pd(e0, e1, e2, e3); }
+inline __m256d _mm256_set1_pd(vt_f64 x) { return _mm256_setr_pd(x, x, x, x); }
+inline __m256d _mm256_setzero_pd() { __m256d r; for (int i = 0; i < 4; ++i) { r.l[2 * i] = VT_SH::dzero(); r.l[2 * i + 1] = 0; } return r; }
+inline __m256d _mm256_loadu_pd(vt_f64 const* p) { return _mm256_setr_pd(p[0], p[1], p[2], p[3]); }
+inline void _mm256_storeu_pd(vt_f64* p, __m256d a) { for (int i = 0; i < 4; ++i) p[i].id = a.l[2 * i]; }
+#define VT_D4(NAME, OP) inline __m256d NAME(__m256d a, __m256d b) { __m256d r; for (int i = 0; i < 4; ++i) { r.l[2 * i] = VT_SH::d2(vt::OP, a.l[2 * i], b.l[2 * i]); r.l[2 * i + 1] = 0; } return r; }
+VT_D4(_mm256_add_pd, ADD) VT_D4(_mm256_sub_pd, SUB) VT_D4(_mm256_mul_pd, MUL) VT_D4(_mm256_div_pd, DIV)
+#undef VT_D4
+inline __m256d _mm256_fmadd_pd(__m256d a, __m256d b, __m256d c) { __m256d r; for (int i = 0; i < 4; ++i) { r.l[2 * i] = VT_SH::d3(a.l[2 * i], b.l[2 * i], c.l[2 * i]); r.l[2 * i + 1] = 0; } return r; }
+inline __m256d _mm256_blend_pd(__m256d a, __m256d b, int imm) { __m256d r; for (int i = 0; i < 4; ++i) { r.l[2 * i] = ((imm >> i) & 1) ? b.l[2 * i] : a.l[2 * i]; r.l[2 * i + 1] = 0; } return r; }
+inline __m256d _mm256_permute_pd(__m256d a, int imm) { __m256d r; for (int i = 0; i < 4; ++i) { r.l[2 * i] = a.l[2 * ((i & 2) + ((imm >> i) & 1))]; r.l[2 * i + 1] = 0; } return r; }
+inline __m256d _mm256_permute4x64_pd(__m256d a, int imm) { __m256d r; for (int i = 0; i < 4; ++i) { r.l[2 * i] = a.l[2 * ((imm >> (2 * i)) & 3)]; r.l[2 * i + 1] = 0; } return r; }
+inline __m256d _mm256_permute2f128_pd(__m256d a, __m256d b, int imm) { __m256d r; for (int h = 0; h < 2; ++h) { int c = (imm >> (4 * h)) & 15; for (int i = 0; i < 2; ++i) { uint32_t v = (c & 8) ? VT_SH::dzero() : ((c & 2) ? b : a).l[2 * (2 * (c & 1) + i)]; r.l[2 * (2 * h + i)] = v; r.l[2 * (2 * h + i) + 1] = 0; } } return r; }
+inline __m128d _mm256_castpd256_pd128(__m256d a) { __m128d r; for (int i = 0; i < 4; ++i) r.l[i] = a.l[i]; return r; }
+inline __m128d _mm256_extractf128_pd(__m256d a, int h) { __m128d r; for (int i = 0; i < 4; ++i) r.l[i] = a.l[4 * (h & 1) + i]; return r; }
 // ---- everything else GLM mentions: declared, not traced
 #define VT_STUB(RET, NAME) template<class... A> inline RET NAME(A...) { throw vt::Untraceable("simd: " #NAME " is not traced"); }
 VT_STUB(__m128i, _mm_slli_epi32) VT_STUB(__m128i, _mm_srli_epi32) VT_STUB(__m128i, _mm_srai_epi32) VT_STUB(__m128i, _mm_sll_epi32) VT_STUB(__m128i, _mm_srl_epi32)
@@ -238,12 +274,12 @@ VT_STUB(__m128i, _mm_min_epi32) VT_STUB(__m128i, _mm_max_epi32) VT_STUB(__m128i,
 VT_STUB(__m128i, _mm_cmpeq_epi32) VT_STUB(__m128i, _mm_cmpneq_epi32) VT_STUB(__m128i, _mm_unpacklo_epi32) VT_STUB(__m128i, _mm_unpacklo_epi64) VT_STUB(__m128i, _mm_cvtsi32_si128)
 VT_STUB(__m128i, _mm_loadu_si128) VT_STUB(void, _mm_storeu_si128) VT_STUB(__m128i, _mm_set1_epi64x) VT_STUB(int, _mm_movemask_epi8) VT_STUB(int, _mm_test_all_zeros)
 VT_STUB(int, _mm_popcnt_u32) VT_STUB(long long, _mm_popcnt_u64)
-VT_STUB(__m128d, _mm_add_pd) VT_STUB(__m128d, _mm_sub_pd) VT_STUB(__m128d, _mm_mul_pd) VT_STUB(__m128d, _mm_div_pd) VT_STUB(__m128d, _mm_set1_pd) VT_STUB(__m128d, _mm_setr_pd) VT_STUB(__m128d, _mm_setzero_pd)
-VT_STUB(__m128d, _mm_shuffle_pd) VT_STUB(__m128d, _mm_loadu_pd) VT_STUB(void, _mm_storeu_pd) VT_STUB(void, _mm_store_sd) VT_STUB(__m128d, _mm_castsi128_pd) VT_STUB(__m128d, _mm_castps_pd)
-VT_STUB(__m256d, _mm256_add_pd) VT_STUB(__m256d, _mm256_sub_pd) VT_STUB(__m256d, _mm256_mul_pd) VT_STUB(__m256d, _mm256_div_pd) VT_STUB(__m256d, _mm256_fmadd_pd) VT_STUB(__m256d, _mm256_set1_pd)
-VT_STUB(__m256d, _mm256_set_pd) VT_STUB(__m256d, _mm256_setr_pd) VT_STUB(__m256d, _mm256_setzero_pd) VT_STUB(__m256d, _mm256_permute_pd) VT_STUB(__m256d, _mm256_permute2f128_pd)
-VT_STUB(__m256d, _mm256_permute4x64_pd) VT_STUB(__m256d, _mm256_blend_pd) VT_STUB(__m256d, _mm256_and_pd) VT_STUB(__m256d, _mm256_loadu_pd) VT_STUB(void, _mm256_storeu_pd)
-VT_STUB(__m128d, _mm256_castpd256_pd128) VT_STUB(__m128d, _mm256_extractf128_pd)
+
+VT_STUB(__m128d, _mm_castsi128_pd) VT_STUB(__m128d, _mm_castps_pd)
+
+
+VT_STUB(__m256d, _mm256_and_pd) 
+
 VT_STUB(__m256i, _mm256_and_si256) VT_STUB(__m256i, _mm256_or_si256) VT_STUB(__m256i, _mm256_xor_si256) VT_STUB(__m256i, _mm256_set1_epi32) VT_STUB(__m256i, _mm256_set1_epi64x)
 VT_STUB(__m256i, _mm256_sll_epi64) VT_STUB(__m256i, _mm256_srl_epi64)
 #undef VT_STUB
